@@ -256,6 +256,10 @@ CONSTANTS Statements, TableDefs, LineSet, MaxLines, MaxFiles, JoinLineSets, Mode
           Lazy,      \* TRUE: the input is not fixed in Init; lines arrive one by one (Arrive) until Close -- for random long inputs under `tlc -simulate`
           MinLines   \* Lazy only: the input is not closed before it has this many lines (long runs)
 
+\* inputs given whole (a configuration overrides this with `FixedInputs <- ...`): long inputs beyond what Init can enumerate -- thousands of lines, more
+\* groups / distinct rows than any in-memory shortcut of the code is sized for
+FixedInputs == {}
+
 RECURSIVE SeqsOf(_, _)
 SeqsOf(S, n) == IF n = 0 THEN {<<>>} ELSE LET P == SeqsOf(S, n - 1) IN P \cup {Append(s, x) : s \in {p \in P : Len(p) = n - 1}, x \in S}
 
@@ -269,7 +273,8 @@ Splits(ls) ==
 Init ==
   /\ q \in Statements
   /\ tdef \in TableDefs
-  /\ IF Lazy THEN files = <<<<>>>> ELSE \E ls \in SeqsOf(LineSet, MaxLines) : files \in Splits(ls)
+  /\ IF FixedInputs # {} THEN files \in FixedInputs
+     ELSE IF Lazy THEN files = <<<<>>>> ELSE \E ls \in SeqsOf(LineSet, MaxLines) : files \in Splits(ls)
   /\ closed = ~Lazy
   /\ jlines \in (IF q.join = "none" THEN {<<>>} ELSE JoinLineSets)
   /\ mode \in Modes
